@@ -137,6 +137,8 @@ def oracle_c07(case, res):
         return None          # the whole stream is itself undecodable under this codec / policy: outside the property
     if res['problems']:
         return res['problems'][0]
+    if any(not isinstance(g, str) for g in got):
+        return 'a read returned %s in unicode mode (%s)' % (sorted(set(type(g).__name__ for g in got)), case['encoding'])
     text = ''.join(got)
     if text != want:
         return 'delivered %r but the stream decodes to %r (chunks %r, %s/%s)' % (text, want, [op[1] for op in case['ops'] if op[0] == 'R'],
